@@ -55,7 +55,13 @@ def judge (line : String) : String :=
           else if cands.any (fun r => outEq r.out res && decide (Spec.abs now r.db = Spec.abs now post)) then "1" else "0"
         let xv := if Spec.crossType op now pre then "1" else "0"
         let ev := if Spec.expiryInvolved op pre then "1" else "0"
-        let tail := s!"A={av} P={invPre} I={inv} S={sv} N={nv} V={vv} X={xv} E={ev} K={ks}"
+        let tv := match Spec.typeEtimeTruthful inTx op now pre post res with
+          | some true => "1" | some false => "0" | none => "-"
+        -- C20: after the reclamation step with limit 0 (what the ticker calls) no stored row is expired
+        let gv := match op with
+          | .keyDeleteExpired n => if n ≤ 0 then (if post.keys.all (fun r => r.live now) then "1" else "0") else "-"
+          | _ => "-"
+        let tail := s!"A={av} P={invPre} I={inv} S={sv} N={nv} V={vv} T={tv} G={gv} X={xv} E={ev} K={ks}"
         if cands.any (fun r => isOutOfDomain r.out) then s!"{seq} M=- {tail}"
         else
           match cands.find? (fun r => outEq r.out res && decide (canon r.db = post)) with
